@@ -19,7 +19,8 @@ Inductive pv : Type :=
 | PUni (s : bytes)                       (* unicode text (its UTF-8) *)
 | PStr (s : bytes)                       (* Python-2 str *)
 | PBytes (s : bytes) | PBArr (s : bytes)
-| PTuple (l : list pv) | PList (l : list pv) | PDict (es : list (pv * pv))
+| PTuple (l : list pv) | PList (l : list pv)
+| PDict (trace : list (pv * pv))         (* every assignment d[k] = v made so far, in order *)
 | PGlobal (m n : bytes) | PCall (f : pv) (args : list pv) | PPers (pid : pv).
 
 Inductive pitem := PMark | PObj (v : pv).
@@ -55,8 +56,13 @@ Fixpoint pd_assign (es : list (pv * pv)) (k v : pv) : list (pv * pv) :=
   | (k0, v0) :: t => if pv_eq k0 k then (k0, v) :: t else (k0, v0) :: pd_assign t k v
   end.
 
-Definition pd_set (es : list (pv * pv)) (k v : pv) : option (list (pv * pv)) :=
-  match pv_key k with Some _ => Some (pd_assign es k v) | None => None end.
+(* what the dict holds after a trace of assignments *)
+Definition pd_merge (trace : list (pv * pv)) : list (pv * pv) :=
+  fold_left (fun es kv => pd_assign es (fst kv) (snd kv)) trace [].
+
+(* one assignment recorded; None: the key is unhashable (TypeError) *)
+Definition pd_set (trace : list (pv * pv)) (k v : pv) : option (list (pv * pv)) :=
+  match pv_key k with Some _ => Some (trace ++ [(k, v)]) | None => None end.
 
 (* items in stack order above the mark (top first) -> the dict; None: odd count or unhashable key *)
 Fixpoint pd_of_items (items : list pv) (acc : list (pv * pv)) : option (list (pv * pv)) :=
